@@ -199,6 +199,10 @@ namespace MEDDLY {
 
 } // namespace MEDDLY
 
+#ifdef MEDDLY_VERIF
+#include "verif_hooks.h"
+#endif
+
 
 #endif // #include guard
 
